@@ -45,6 +45,8 @@ type inode struct {
 	target string
 	mtime  time.Time
 	gone   bool // directory unlinked while handles may still be open
+	lost   bool // an fsync of this file failed: what was dirty then never becomes durable
+	lostAt int
 }
 
 // pending (not yet durable) directory operation
@@ -698,7 +700,7 @@ func (f *FS) cloneLocked() (*FS, map[*inode]*inode) {
 		if x, ok := m[n]; ok {
 			return x
 		}
-		x := &inode{ino: n.ino, kind: n.kind, perm: n.perm, dirty: n.dirty, target: n.target, mtime: n.mtime}
+		x := &inode{ino: n.ino, kind: n.kind, perm: n.perm, dirty: n.dirty, target: n.target, mtime: n.mtime, lost: n.lost, lostAt: n.lostAt}
 		m[n] = x
 		x.data = append([]byte(nil), n.data...)
 		x.dur = append([]byte(nil), n.dur...)
